@@ -11,6 +11,7 @@ from mc import core
 from refs import timing as rt
 
 ID = "C11"
+LARGE = dict(quick="lists of 40 and 300 changes", thorough="lists of 40, 300 and 1200 changes")
 TITLE = "Reseating tempo changes onto measure lines keeps every change at its time"
 RULE = (
     "function enumeration: a state is a distinct (tempo list, initial offset, entry point); a transition is one reseat call; "
